@@ -114,3 +114,70 @@ class Handler(object):
                 return 0        # only reached when the scope swallowed the exception
             raise_it(self.outcome["raise"])
         return value_of(self.outcome["ret"])
+
+
+# ---- the ways a handler can be wired to a command (C04): the same behaviour as `Handler`, given to the configuration
+# as an instance, through a lazy factory (function, the class itself, a partial, an object that can be called, a bound
+# method), as a plain function behind the method name of calling, or under a custom handler method name
+WRONG_CALLS = []      # calls of a method that is NOT the configured handler method
+BUILT = []            # one entry per handler object a factory built
+
+
+def _act(outcome, args, io, command):
+    CALLS.append({"command": command.name, "arguments": dict(args.arguments(False)),
+                  "options": dict(args.options(False))})
+    if "raise" in outcome:
+        if outcome["raise"].get("scope"):
+            with io.indent(2):
+                io.write_line("inside the scope")
+                raise_it(outcome["raise"])
+            return 0
+        raise_it(outcome["raise"])
+    return value_of(outcome["ret"])
+
+
+def handler_type(outcome, method="handle", decoy=False, base_defines=True):
+    """a handler CLASS that is built without arguments; its handler method is called `method`.  With `base_defines` the
+    method is inherited from a base class (an ordinary class hierarchy); `decoy`: the class also has a method with the
+    default name that must never be called when another name is configured."""
+    def invoke(self, args, io, command):
+        return _act(self.outcome, args, io, command)
+
+    def wrong(self, args, io, command):
+        WRONG_CALLS.append(command.name)
+        return 0
+
+    def init(self):
+        BUILT.append(type(self).__name__)
+    ns = {method: invoke}
+    if decoy and method != "handle":
+        ns["handle"] = wrong
+    if base_defines:
+        base = type("BaseOfGenerated", (object,), ns)
+        return type("GeneratedHandler", (base,), {"outcome": outcome, "__init__": init})
+    ns.update({"outcome": outcome, "__init__": init})
+    return type("GeneratedHandler", (object,), ns)
+
+
+class Factory(object):
+    """an object that builds the handler when it is called (it is not a handler itself)"""
+
+    def __init__(self, cls, fail=None, nothing=False):
+        self.cls, self.fail, self.nothing = cls, fail, nothing
+
+    def __call__(self):
+        return self.build()
+
+    def build(self):
+        if self.fail is not None:
+            raise_it(self.fail)
+        if self.nothing:
+            return None
+        return self.cls()
+
+
+def function_handler(outcome):
+    """a plain function as the handler: reached through the method name of calling"""
+    def the_handler(args, io, command):
+        return _act(outcome, args, io, command)
+    return the_handler
